@@ -25,7 +25,7 @@ Make the three changes as different from each other as you can (different functi
 Environment: no network. Use `export GOFLAGS=-mod=mod GOPROXY=off` before go commands; the default `go` on PATH works for this repository. All dependencies are already in the module cache. Do not run `git commit`; produce patch files with `git diff`.
 
 Deliverables, all inside {wt}/_seeded/ (create it):
-  - m1.patch, m2.patch, m3.patch: `git diff` of ONLY the library change (not the demo test), each against clean HEAD (use `git stash`/`git checkout -- .` between them so that they are independent);
+  - m1.patch, m2.patch, m3.patch: `git diff` of ONLY the library change (not the demo test), each against clean HEAD (save each with `git diff > file`, then `git checkout -- .` before the next one so that they are independent; do NOT use `git stash` - the stash is shared between all worktrees of this repository and other people work in sibling worktrees);
   - m1_demo_test.go, m2_demo_test.go, m3_demo_test.go: the demonstration tests, each with a header comment saying in which package directory the file must be placed and the exact `go test` command to run it;
   - m1.md, m2.md, m3.md: 5-10 lines each: what the change is, which facet of the property it breaks, and what exactly is needed for it to manifest (interleaving / fault / sequence / input).
 Before you finish: for each change, verify (a) suite passes with the change, (b) demo fails with the change, (c) demo passes on clean HEAD; then leave the worktree CLEAN (git checkout -- . ; remove the demo tests from the package dirs; only _seeded/ remains as untracked). If you cannot find three, deliver as many as you can and say so.
